@@ -15,6 +15,16 @@ Schemes2 == {"SHA256withECDSA", "SHA3-256withECDSA"}
 ActsAll == {"New", "Import", "Delete", "SetDefault", "SetLabel", "ChangePassword", "ChangeScheme", "Reload", "SetFault", "ClearFault"}
 ActsNoNew == ActsAll \ {"New"}
 
-Edge == PrintT(<<"EDGE", ToJson([from |-> State, act |-> act', to |-> State'])>>)
+OpsConc == (ActsAll \ {"Reload", "SetFault", "ClearFault"}) \cup {"Open"}
+T1 == {1}
+T12 == {1, 2}
+NoSplit == {}
+SplitImport == {"Import"}
+SplitDelete == {"Import", "Delete"}
+SplitChangePassword == {"Import", "ChangePassword"}
+SplitSetDefault == {"Import", "SetDefault"}
+SplitSetLabel == {"Import", "SetLabel"}
+
+Edge == PrintT(<<"EDGE", ToJson([from |-> State, act |-> act', who |-> who', to |-> State'])>>)
 InitOut == (TLCGet("level") = 1) => PrintT(<<"INIT", ToJson(State)>>)
 =============================================================================
